@@ -347,9 +347,25 @@ fn run_crash_in(case: &C04Case, at: i64, it: &mut Interp, log: &std::path::Path)
                     it.ctxs.push(id);
                 }
                 it.topics_used.insert(spec.topic.clone());
-            } else if let Some(f) = it.model.frames.get_mut(&spec.id.unwrap()) {
-                // a re-import of a stored frame: either way it is still there
-                let _ = f;
+            } else if it.model.frames.contains_key(&spec.id.unwrap()) {
+                // an import over a stored id (same frame again, or amended meta/ttl/hash): the
+                // frame is there either way, in its old or in its new form - entirely one of them
+                let id = spec.id.unwrap();
+                let got = must("get", it.ex().get(id))?;
+                let new_form = WFrame {
+                    id: id_str(id),
+                    ctx: id_str(spec.ctx),
+                    topic: spec.topic.clone(),
+                    hash: spec.hash.clone(),
+                    meta: spec.meta_printed(),
+                    ttl: spec.ttl.clone(),
+                };
+                if got.as_ref() == Some(&new_form) {
+                    it.model.apply_import(spec);
+                    if let Some(k) = it.known.iter_mut().find(|k| k.id == id) {
+                        k.spec = spec.clone();
+                    }
+                }
             }
         }
         Some(InFlight::Remove(id)) => {
